@@ -905,6 +905,33 @@ func ruleAliasIsBase(w *World, r *Report, rule string) {
 				}
 				return true
 			})
+			// literals handed on directly: descriptors = append(descriptors, &Descriptor{…})
+			bound := map[*ast.CompositeLit]bool{}
+			ast.Inspect(il.Body, func(x ast.Node) bool {
+				if as, ok := x.(*ast.AssignStmt); ok && len(as.Lhs) == len(as.Rhs) {
+					for i, l := range as.Lhs {
+						if o := objOf(info, l); o != nil && isNamedType(o.Type(), modPath, "Descriptor") {
+							if cl := litOf(as.Rhs[i]); cl != nil {
+								bound[cl] = true
+							}
+						}
+					}
+				}
+				return true
+			})
+			anon := 0
+			ast.Inspect(il.Body, func(x ast.Node) bool {
+				cl, ok := x.(*ast.CompositeLit)
+				if !ok || bound[cl] {
+					return true
+				}
+				if tv, ok := info.Types[cl]; ok && isNamedType(tv.Type, modPath, "Descriptor") {
+					anon++
+					o := types.NewVar(cl.Pos(), fi.Pkg.Types, fmt.Sprintf("literal%d", anon), tv.Type)
+					given[o] = compositeFields(cl)
+				}
+				return true
+			})
 			for o, fields := range given {
 				n++
 				var missing []string
